@@ -14,8 +14,13 @@
   `Lemmas/Fatom*.lean` and only use the weak invariant `Forest.W` (handles distinct and below
   `next`, only elements and documents have children) — except `element_unwrap`, whose `unwrap`
   on `last_child` needs the child ordering of the full invariant.
+  WHICH error in WHICH state: `C06_outcomes` (the answer of every call of `Forest.Call` on live arguments is
+  `Call.answer`, a decidable function of the state before the call and the arguments: Model/FrefusalSpec.lean),
+  `C06_refusal_iff` (error iff `Call.refusal` names one, and that one), `C06_refused_unchanged`,
+  `C06_refusal_table` / `C06_refusal_anyAppend` (the conditions, constructor by constructor).
 -/
 import XotModel.Lemmas.FatomAll
+import XotModel.Lemmas.FatomRefusal
 import XotModel.Lemmas.Fcreation
 import XotModel.Lemmas.FpxDedup
 import XotModel.Lemmas.FhistAtomic
@@ -461,6 +466,127 @@ example : (C06_sample.cloneNode 5).2 = some 6 := by decide
 example : (({ roots := [.node 0 (.element 1) [.node 1 (.comment ['a']) []]], next := 2 } : Forest).cloneNode 0).2 = some 3 := by decide
 example : (Forest.Call.replace 4 5).liveArgs C06_sample := by
   intro x hx; simp [Forest.Call.args] at hx; rcases hx with h | h <;> subst h <;> decide
+
+/-! ### Which error in which state (`Call.refusal`, Model/FrefusalSpec.lean)
+
+`Call.refusal f c : Option XotError` is a decidable function of the forest and the arguments: the argument checks of
+the call in the order the Rust performs them (manipulation.rs, nodemap/core.rs, valueaccess.rs), without the edit.
+`Call.answer f c` = `Err(e)` when `refusal f c = some e`, else `panic` when `c.documentedPanic f`, else `Ok`. -/
+
+/-- ⟦C06_outcomes⟧ **What every call of the mutating API answers, exactly**, on live arguments in a forest satisfying
+    the invariant: the answer is `Call.answer`, read off the state BEFORE the call and the arguments only.  So, for
+    every constructor of `Forest.Call`: the call answers `Err(e)` exactly when its argument checks name `e`
+    (`Call.refusal`: `InvalidOperation` everywhere, `InvalidComment` for `comment_mut().set` of a text with `--`);
+    it panics exactly on the documented element-only accessors; in every other state it answers `Ok` - after the
+    checks nothing fails (no late `NodeError` from indextree, no `unwrap` on `None`). -/
+theorem C06_outcomes (f : Forest) (c : Forest.Call) (hi : f.Inv) (hl : c.liveArgs f) :
+    (c.run f).2 = c.answer f :=
+  Forest.call_answer hi c hl
+
+/-- ⟦C06_refusal_iff⟧ The call answers an error iff `Call.refusal` names one, and it is that error. -/
+theorem C06_refusal_iff (f : Forest) (c : Forest.Call) (hi : f.Inv) (hl : c.liveArgs f) :
+    ((∃ e, (c.run f).2 = .err e) ↔ (c.refusal f).isSome = true) ∧
+    (∀ e, (c.run f).2 = .err e ↔ c.refusal f = some e) := by
+  refine ⟨⟨fun ⟨e, h⟩ => ?_, fun h => ?_⟩, Forest.call_refusal_iff hi c hl⟩
+  · rw [(Forest.call_refusal_iff hi c hl e).1 h]; rfl
+  · cases hr : c.refusal f with
+    | none => rw [hr] at h; cases h
+    | some e => exact ⟨e, (Forest.call_refusal_iff hi c hl e).2 hr⟩
+
+/-- With C06_atomic: a call whose checks name an error returns the forest it was given, and that error. -/
+theorem C06_refused_unchanged (f : Forest) (c : Forest.Call) (e : XotError) (hi : f.Inv) (hl : c.liveArgs f)
+    (h : c.refusal f = some e) : c.run f = (f, .err e) := by
+  have h2 := ((C06_refusal_iff f c hi hl).2 e).2 h
+  have h1 := C06_atomic f c e hi hl h2
+  exact Prod.ext h1 h2
+
+/-- The table behind `Call.refusal`, constructor by constructor (each line holds by definition). -/
+theorem C06_refusal_table (f : Forest) :
+    (∀ p c, Forest.Call.refusal f (.append p c) =
+      if f.structureCheck (some p) c then none else some .invalidOperation) ∧
+    (∀ p c, Forest.Call.refusal f (.prepend p c) =
+      if f.structureCheck (some p) c then none else some .invalidOperation) ∧
+    (∀ r n, Forest.Call.refusal f (.insertAfter r n) =
+      if f.structureCheck (f.parent? r) n && f.siblingReferenceCheck r n then none else some .invalidOperation) ∧
+    (∀ r n, Forest.Call.refusal f (.insertBefore r n) =
+      if f.structureCheck (f.parent? r) n && f.siblingReferenceCheck r n then none else some .invalidOperation) ∧
+    (∀ n, Forest.Call.refusal f (.detach n) = none ∧ Forest.Call.refusal f (.remove n) = none ∧
+      Forest.Call.refusal f (.cloneNode n) = none) ∧
+    (∀ a b, Forest.Call.refusal f (.replace a b) =
+      if f.isDocument a ||
+        (match f.parent? a with
+         | none => true
+         | some parent => !f.isNormalNode a || !f.structureCheck (some parent) b || (f.ancestors b).contains a)
+      then some .invalidOperation else none) ∧
+    (∀ n name, Forest.Call.refusal f (.elementWrap n name) =
+      if f.isDocument n || !f.isNormalNode n || (f.hasDocumentParent n && !f.isDocumentElement n)
+      then some .invalidOperation else none) ∧
+    (∀ n, Forest.Call.refusal f (.elementUnwrap n) =
+      if !f.isElement n || ((f.firstChild n).isSome && (f.parent? n).isNone) then some .invalidOperation else none) ∧
+    (∀ k p c, Forest.Call.refusal f (.appendEntryNode k p c) =
+      if !f.isElement p || (match f.value? c with | some v => !k.matches v | none => false)
+      then some .invalidOperation else none) ∧
+    (∀ k p e key n name, Forest.Call.refusal f (.mapInsert k p e) = none ∧
+      Forest.Call.refusal f (.mapRemove k p key) = none ∧ Forest.Call.refusal f (.mapClear k p) = none ∧
+      Forest.Call.refusal f (.setElementName n name) = none) ∧
+    (∀ n s, Forest.Call.refusal f (.setText n s) = if f.isText n then none else some .invalidOperation) ∧
+    (∀ n s, Forest.Call.refusal f (.setComment n s) =
+      match f.value? n with
+      | some (.comment _) => if Forest.hasDoubleDash s then some .invalidComment else none
+      | _ => some .invalidOperation) ∧
+    (∀ n d, Forest.Call.refusal f (.setPiData n d) =
+      match f.value? n with
+      | some (.pi _ _) => none
+      | _ => some .invalidOperation) ∧
+    (∀ n s, Forest.Call.refusal f (.textContentSet n s) =
+      if (match f.firstChild n with
+          | some child => (f.nextSibling child).isSome || !f.isText child
+          | none => !f.isElement n)
+      then some .invalidOperation else none) :=
+  ⟨fun _ _ => rfl, fun _ _ => rfl, fun _ _ => rfl, fun _ _ => rfl, fun _ => ⟨rfl, rfl, rfl⟩, fun _ _ => rfl,
+   fun _ _ => rfl, fun _ => rfl, fun _ _ _ => rfl, fun _ _ _ _ _ _ => ⟨rfl, rfl, rfl, rfl⟩, fun _ _ => rfl,
+   fun _ _ => rfl, fun _ _ => rfl, fun _ _ => rfl⟩
+
+/-- `any_append` dispatches on the child: a namespace / attribute node goes to `append_namespace_node` /
+    `append_attribute_node` (refused iff the parent is not an element), everything else to `append`. -/
+theorem C06_refusal_anyAppend (f : Forest) (p c : Nat) :
+    Forest.Call.refusal f (.anyAppend p c) =
+      match f.value? c with
+      | some (.namespace _ _) => Forest.Call.refusal f (.appendEntryNode .namespaces p c)
+      | some (.attribute _ _) => Forest.Call.refusal f (.appendEntryNode .attributes p c)
+      | _ => Forest.Call.refusal f (.append p c) := by
+  simp only [Forest.Call.refusal, Forest.entryRefused]
+  split <;> rename_i hv <;> simp [hv, Forest.MapKind.matches] <;> cases f.isElement p <;> rfl
+
+/-- Non-vacuity on `C06_sample` (`<doc><e xmlns:p=".." a="v">x</e></doc>` + an unattached comment 5): refusals of
+    both error kinds, the accepted calls of the examples above, the documented panic - as `Call.answer` computes
+    them and as the model answers. -/
+example : (Forest.Call.append 4 5).refusal C06_sample = some .invalidOperation ∧
+    (Forest.Call.append 1 1).refusal C06_sample = some .invalidOperation ∧
+    (Forest.Call.insertAfter 0 5).refusal C06_sample = some .invalidOperation ∧
+    (Forest.Call.insertBefore 3 5).refusal C06_sample = some .invalidOperation ∧
+    (Forest.Call.replace 0 5).refusal C06_sample = some .invalidOperation ∧
+    (Forest.Call.replace 5 4).refusal C06_sample = some .invalidOperation ∧
+    (Forest.Call.replace 3 5).refusal C06_sample = some .invalidOperation ∧
+    (Forest.Call.replace 1 4).refusal C06_sample = some .invalidOperation ∧
+    (Forest.Call.elementWrap 3 7).refusal C06_sample = some .invalidOperation ∧
+    (Forest.Call.elementUnwrap 4).refusal C06_sample = some .invalidOperation ∧
+    (Forest.Call.anyAppend 4 3).refusal C06_sample = some .invalidOperation ∧
+    (Forest.Call.appendEntryNode .attributes 1 2).refusal C06_sample = some .invalidOperation ∧
+    (Forest.Call.setText 5 ['y']).refusal C06_sample = some .invalidOperation ∧
+    (Forest.Call.setComment 5 ['a', '-', '-', 'b']).refusal C06_sample = some .invalidComment ∧
+    (Forest.Call.setComment 4 ['a']).refusal C06_sample = some .invalidOperation ∧
+    (Forest.Call.setPiData 5 none).refusal C06_sample = some .invalidOperation ∧
+    (Forest.Call.textContentSet 0 ['y']).refusal C06_sample = some .invalidOperation := by decide
+example : (Forest.Call.append 1 5).answer C06_sample = .ok ∧ (Forest.Call.replace 4 5).answer C06_sample = .ok ∧
+    (Forest.Call.elementWrap 4 7).answer C06_sample = .ok ∧ (Forest.Call.elementUnwrap 1).answer C06_sample = .ok ∧
+    (Forest.Call.setComment 5 ['a', '-', 'b']).answer C06_sample = .ok ∧
+    (Forest.Call.textContentSet 1 ['y']).answer C06_sample = .ok ∧
+    (Forest.Call.mapInsert .attributes 4 (.attribute 9 [])).answer C06_sample = .panic ∧
+    (Forest.Call.mapInsert .attributes 1 (.attribute 9 [])).answer C06_sample = .ok := by decide
+example : ((Forest.Call.setComment 5 ['a', '-', '-', 'b']).run C06_sample).2 = .err .invalidComment ∧
+    ((Forest.Call.replace 1 4).run C06_sample).2 = .err .invalidOperation ∧
+    ((Forest.Call.replace 1 4).run C06_sample).1.allHandles = C06_sample.allHandles := by decide
 
 /-! ### The convenience calls of the public API (`Model/Fcreation.lean`)
 
